@@ -33,9 +33,8 @@ def grayLoop (n : Nat) : Nat :=
       (mask >>> 1, cp, result))
     (0x80, false, 0)).2.2
 
-/-- `graytobin` (always reads the MA code, whatever the format) -/
-def graytobin (m : Msg) : Nat × Nat :=
-  let code := maCode m
+/-- `graytobin` on the working code -/
+def graytobinOfCode (code : Nat) : Nat × Nat :=
   let n := (extractBit code 4 <<< 10) ||| (extractBit code 2 <<< 9) ||| (extractBit code 12 <<< 8)
     ||| (extractBit code 10 <<< 7) ||| (extractBit code 8 <<< 6) ||| (extractBit code 7 <<< 5)
     ||| (extractBit code 5 <<< 4) ||| (extractBit code 3 <<< 3) ||| (extractBit code 13 <<< 2)
@@ -50,9 +49,27 @@ def graytobin (m : Msg) : Nat × Nat :=
       (if sub = 1 then 4 else if sub = 3 then 3 else if sub = 6 then 1 else if sub = 2 then 2 else 0)
   (high, low)
 
+/-- `graytobin` (always reads the MA code, whatever the format) -/
+def graytobin (m : Msg) : Nat × Nat := graytobinOfCode (maCode m)
+
 /-- `((x as f32) * 0.31) as u32` for `x < 2048` (see DESIGN 5.5: exact floor; swept exhaustively
     by the correspondence check) -/
 def metricAlt (x : Nat) : Nat := x * 31 / 100
+
+/-- Q = 1 arm of `altitude_value`: `(N * 25).checked_sub(1000)` -/
+def altQ1 (code : Nat) : Option Nat :=
+  let v := (((code >>> 7) <<< 4) ||| ((code >>> 2) &&& 0b1111)) * 25
+  if 1000 ≤ v then some (v - 1000) else none
+
+/-- Q = 0 arm of `altitude_value` -/
+def altGillham (m : Msg) : Option Nat :=
+  let hl := graytobin m
+  let value := hl.1 * 500 + hl.2 * 100
+  if 1200 ≤ value then some (hl.1 * 500 + hl.2 * 100 - 1200) else none
+
+/-- M = 1 arm of `altitude_value` -/
+def altMetric (code : Nat) : Option Nat :=
+  some (metricAlt ((((code >>> 7) <<< 4) &&& 0b11111110000) ||| ((code >>> 2) &&& 0b1111)))
 
 /-- `altitude_value` -/
 def altitudeValue (m : Msg) (code : Option Nat) : Option Nat :=
@@ -60,16 +77,8 @@ def altitudeValue (m : Msg) (code : Option Nat) : Option Nat :=
   | none => none
   | some code =>
     if code &&& 0b10 = 0 then
-      if code &&& 1 = 0 then
-        let (high, low) := graytobin m
-        let value := high * 500 + low * 100
-        if 1200 ≤ value then some (high * 500 + low * 100 - 1200) else none
-      else
-        -- `checked_sub(1000)`
-        let v := (((code >>> 7) <<< 4) ||| ((code >>> 2) &&& 0b1111)) * 25
-        if 1000 ≤ v then some (v - 1000) else none
-    else
-      some (metricAlt ((((code >>> 7) <<< 4) &&& 0b11111110000) ||| ((code >>> 2) &&& 0b1111)))
+      if code &&& 1 = 0 then altGillham m else altQ1 code
+    else altMetric code
 
 /-- `altitude` -/
 def altitude (m : Msg) (df : Nat) : Option Nat :=
@@ -179,17 +188,34 @@ def velocityComponents (m : Msg) : Int × Int :=
     | none => 0
   (w, s)
 
+/-- a velocity component as the code holds it in `f64`: direction bit and magnitude; the direction
+    bit survives a zero magnitude (`-(1.0 - 1.0)` is `-0.0`), which `atan2` can see -/
+structure SignedMag where
+  neg : Bool
+  mag : Nat
+deriving DecidableEq, Repr
+
+/-- the components as direction bit + magnitude (fields 47..56 / 58..67 minus one) -/
+def velocitySignedMag (m : Msg) : SignedMag × SignedMag :=
+  let w : SignedMag := match flagAndRangeValue m 46 47 56 with
+    | some (dir, sp) => { neg := dir == 1, mag := sp - 1 }
+    | none => { neg := false, mag := 0 }
+  let s : SignedMag := match flagAndRangeValue m 57 58 67 with
+    | some (dir, sp) => { neg := dir &&& 1 == 1, mag := sp - 1 }
+    | none => { neg := false, mag := 0 }
+  (w, s)
+
 /-- `track_and_groundspeed`; `atan2deg x y` stands for
     `((x.atan2(y).to_degrees().floor() + 360.0) % 360.0) as u32` (a parameter of the model, DESIGN 4.4);
     `f64::sqrt(..).floor()` is `Nat.sqrt` (argument < 2^22, exact). -/
-def trackAndGroundspeed (atan2deg : Int → Int → Nat) (m : Msg) (isSupersonic : Bool) :
+def trackAndGroundspeed (atan2deg : SignedMag → SignedMag → Nat) (m : Msg) (isSupersonic : Bool) :
     Option Nat × Option Nat :=
   if rangeValue m 47 56 = some 0 ∨ rangeValue m 58 67 = some 0 then (none, none)
   else
     let (w, s) := velocityComponents m
     let gs := Nat.sqrt (w * w + s * s).toNat
     let gs := if isSupersonic then gs * 4 else gs
-    (some (atan2deg w s), some gs)
+    (some (atan2deg (velocitySignedMag m).1 (velocitySignedMag m).2), some gs)
 
 /-- `heading` of `ehs/base.rs` (TC19 subtypes 3/4): the raw 10-bit field -/
 def headingRaw (m : Msg) : Option Nat := rangeValue m 47 56
